@@ -1,6 +1,4 @@
 import GontainerModel.Props.C20
-#print axioms GM.C20.inv_init
-#print axioms GM.C20.inv_step
 #print axioms GM.C20.reachable_inv
 #print axioms GM.C20.at_most_once
 #print axioms GM.C20.cached_then_hit
